@@ -1,9 +1,532 @@
-(* C10 - lemmas about Topo/Bind.v *)
-From Coq Require Import NArith ZArith Bool List Lia.
+(* C10 - lemmas about Topo/Bind.v.
+   Structure: [calls_of T a] lists, as a pure function of the arguments, every
+   hook call an entry point can construct; [pres_run_api] shows that whatever
+   the OS answers, whatever hooks exist, the trace only grows by such calls.
+   The trace theorems are then facts about [calls_of]; the result theorems
+   (rc / errno) are proved on the short paths their hypotheses select. *)
+From Coq Require Import NArith ZArith Bool List Lia String.
 From HV Require Import Base.BSet Gen.Tables Topo.Bind.
 Import ListNotations.
 Local Open Scope N_scope.
 
+(* ---------- tables: the model's masks and policy check are what the entry points accept ---------- *)
 Lemma policy_ok_table :
   forallb (fun e => forallb (fun pb => Bool.eqb (policy_ok (fst pb)) (snd pb)) (snd e)) bind_accepted_policies = true.
 Proof. vm_compute. reflexivity. Qed.
+
+Definition is_membind_name (s : string) : bool :=
+  existsb (String.eqb s) ["set_membind"; "get_membind"; "set_proc_membind"; "get_proc_membind"; "set_area_membind";
+                          "get_area_membind"; "get_area_memlocation"; "alloc_membind"]%string.
+Lemma allflags_table :
+  forallb (fun e => snd e =? (if is_membind_name (fst e) then MEMBIND_ALLFLAGS else CPUBIND_ALLFLAGS)) bind_accepted_flags = true
+  /\ List.length bind_accepted_flags = 16%nat.
+Proof. split; vm_compute; reflexivity. Qed.
+
+(* ---------- sets ---------- *)
+Lemma bs_subset_refl a : bs_subset a a = true.
+Proof. apply bs_subset_spec. auto. Qed.
+Lemma bs_subset_trans a b c : bs_subset a b = true -> bs_subset b c = true -> bs_subset a c = true.
+Proof. rewrite !bs_subset_spec. auto. Qed.
+Lemma bs_subset_empty_r a : bs_subset a bs_empty = true -> bs_is_empty a = true.
+Proof.
+  rewrite bs_subset_spec, bs_is_empty_mem. intros H i.
+  destruct (mem i a) eqn:E; [|reflexivity]. apply H in E. now rewrite mem_empty in E.
+Qed.
+Lemma nonempty_subset a b : bs_is_empty a = false -> bs_subset a b = true -> bs_is_empty b = false.
+Proof.
+  intros Ha Hs. destruct (bs_is_empty b) eqn:E; [|reflexivity].
+  apply bs_is_empty_spec in E. subst b. apply bs_subset_empty_r in Hs. congruence.
+Qed.
+
+(* ---------- pure versions of the three fix functions ---------- *)
+Definition fixc (T : topo) (set : bset) : option bset :=
+  if bs_is_empty set then None else if negb (bs_subset set (t_ccpuset T)) then None
+  else if bs_subset (t_cpuset T) set then Some (t_ccpuset T) else Some set.
+Definition fixm (T : topo) (ns : bset) : option bset :=
+  if bs_is_empty ns then None else if negb (bs_subset ns (t_cnodeset T)) then None
+  else if bs_subset (t_nodeset T) ns then Some (t_cnodeset T) else Some ns.
+Definition fixmc (T : topo) (cs : bset) : option bset :=
+  if bs_is_empty cs then None else if negb (bs_subset cs (t_ccpuset T)) then None
+  else if bs_subset (t_cpuset T) cs then Some (t_cnodeset T) else Some (cpuset_to_nodeset T cs).
+
+Lemma fixc_some T set x : fixc T set = Some x ->
+  bs_is_empty set = false /\ bs_subset set (t_ccpuset T) = true /\
+  bs_is_empty x = false /\ bs_subset x (t_ccpuset T) = true /\
+  x = (if bs_subset (t_cpuset T) set then t_ccpuset T else set).
+Proof.
+  unfold fixc. destruct (bs_is_empty set) eqn:E1; [discriminate|].
+  destruct (bs_subset set (t_ccpuset T)) eqn:E2; [|discriminate]. cbn [negb].
+  destruct (bs_subset (t_cpuset T) set) eqn:E3; intros H; injection H as <-; repeat split; auto.
+  - eapply nonempty_subset; eauto.
+  - apply bs_subset_refl.
+Qed.
+Lemma fixm_some T ns x : fixm T ns = Some x ->
+  bs_is_empty ns = false /\ bs_subset ns (t_cnodeset T) = true /\
+  bs_is_empty x = false /\ bs_subset x (t_cnodeset T) = true /\
+  x = (if bs_subset (t_nodeset T) ns then t_cnodeset T else ns).
+Proof.
+  unfold fixm. destruct (bs_is_empty ns) eqn:E1; [discriminate|].
+  destruct (bs_subset ns (t_cnodeset T)) eqn:E2; [|discriminate]. cbn [negb].
+  destruct (bs_subset (t_nodeset T) ns) eqn:E3; intros H; injection H as <-; repeat split; auto.
+  - eapply nonempty_subset; eauto.
+  - apply bs_subset_refl.
+Qed.
+Lemma fixmc_some T cs x : fixmc T cs = Some x ->
+  bs_is_empty cs = false /\ bs_subset cs (t_ccpuset T) = true /\ x = derived_nodeset T cs.
+Proof.
+  unfold fixmc, derived_nodeset. destruct (bs_is_empty cs) eqn:E1; [discriminate|].
+  destruct (bs_subset cs (t_ccpuset T)) eqn:E2; [|discriminate]. cbn [negb].
+  destruct (bs_subset (t_cpuset T) cs) eqn:E3; intros H; injection H as <-; auto.
+Qed.
+Lemma fixc_none T set : fixc T set = None -> bs_is_empty set || negb (bs_subset set (t_ccpuset T)) = true.
+Proof.
+  unfold fixc. destruct (bs_is_empty set); [reflexivity|]. destruct (bs_subset set (t_ccpuset T)); cbn [negb orb]; [|reflexivity].
+  destruct (bs_subset (t_cpuset T) set); discriminate.
+Qed.
+
+(* every hook call an entry point can construct, from its arguments alone *)
+Definition both (mk : hid -> hcall) (hp ht : hid) : list hcall := [mk hp; mk ht].
+Definition mem_calls (T : topo) (set : bset) (f : N) (k : bset -> list hcall) : list hcall :=
+  if bynodeset f then k set else match fixmc T set with Some ns => k ns | None => [] end.
+Definition calls_of (T : topo) (a : apicall) : list hcall :=
+  match a with
+  | A_set_cpubind set f =>
+    if flags_ok CPUBIND_ALLFLAGS f then
+      match fixc T set with Some x => both (fun h => HC h 0 (Some x) 0 f 0) H_set_thisproc_cpubind H_set_thisthread_cpubind | None => [] end
+    else []
+  | A_get_cpubind f => if flags_ok CPUBIND_ALLFLAGS f then both (fun h => HC h 0 None 0 f 0) H_get_thisproc_cpubind H_get_thisthread_cpubind else []
+  | A_set_proc_cpubind pid set f =>
+    if flags_ok CPUBIND_ALLFLAGS f then match fixc T set with Some x => [HC H_set_proc_cpubind pid (Some x) 0 f 0] | None => [] end else []
+  | A_get_proc_cpubind pid f => if flags_ok CPUBIND_ALLFLAGS f then [HC H_get_proc_cpubind pid None 0 f 0] else []
+  | A_set_thread_cpubind tid set f =>
+    if flags_ok CPUBIND_ALLFLAGS f then match fixc T set with Some x => [HC H_set_thread_cpubind tid (Some x) 0 f 0] | None => [] end else []
+  | A_get_thread_cpubind tid f => if flags_ok CPUBIND_ALLFLAGS f then [HC H_get_thread_cpubind tid None 0 f 0] else []
+  | A_get_last_cpu_location f => if flags_ok CPUBIND_ALLFLAGS f then both (fun h => HC h 0 None 0 f 0) H_get_thisproc_last H_get_thisthread_last else []
+  | A_get_proc_last_cpu_location pid f => if flags_ok CPUBIND_ALLFLAGS f then [HC H_get_proc_last pid None 0 f 0] else []
+  | A_set_membind set p f =>
+    mem_calls T set f (fun ns => if flags_ok MEMBIND_ALLFLAGS f && policy_ok p then
+      match fixm T ns with Some x => both (fun h => HC h 0 (Some x) p f 0) H_set_thisproc_membind H_set_thisthread_membind | None => [] end else [])
+  | A_get_membind f => if flags_ok MEMBIND_ALLFLAGS f then both (fun h => HC h 0 None 0 f 0) H_get_thisproc_membind H_get_thisthread_membind else []
+  | A_set_proc_membind pid set p f =>
+    mem_calls T set f (fun ns => if flags_ok MEMBIND_ALLFLAGS f && policy_ok p then
+      match fixm T ns with Some x => [HC H_set_proc_membind pid (Some x) p f 0] | None => [] end else [])
+  | A_get_proc_membind pid f => if flags_ok MEMBIND_ALLFLAGS f then [HC H_get_proc_membind pid None 0 f 0] else []
+  | A_set_area_membind len set p f =>
+    mem_calls T set f (fun ns => if flags_ok MEMBIND_ALLFLAGS f && policy_ok p then
+      if len =? 0 then [] else
+      match fixm T ns with Some x => [HC H_set_area_membind 0 (Some x) p f len] | None => [] end else [])
+  | A_get_area_membind len f => if flags_ok MEMBIND_ALLFLAGS f && negb (len =? 0) then [HC H_get_area_membind 0 None 0 f len] else []
+  | A_get_area_memlocation len f => if flags_ok MEMBIND_ALLFLAGS f && negb (len =? 0) then [HC H_get_area_memlocation 0 None 0 f len] else []
+  | A_alloc_membind len set p f =>
+    HC H_alloc 0 None 0 0 len ::
+    mem_calls T set f (fun ns => if flags_ok MEMBIND_ALLFLAGS f && policy_ok p then
+      match fixm T ns with
+      | Some x => if flag HWLOC_MEMBIND_MIGRATE f then [] else [HC H_alloc_membind 0 (Some x) p f len; HC H_set_area_membind 0 (Some x) p f len]
+      | None => [] end else [])
+  end.
+
+Section Pres.
+  Variable W : Type.
+  Variable os : hcall -> W -> hres * W.
+  Variable heap : N -> bool.
+  Variable present : hid -> bool.
+  Variable T : topo.
+  Variable Q : hcall -> Prop.
+
+  Definition pres {X} (f : st W -> X * st W) : Prop :=
+    forall s, Forall Q (s_trace s) -> Forall Q (s_trace (snd (f s))).
+
+  (* a call only has to satisfy Q when it can actually reach the OS *)
+  Definition Q' (c : hcall) : Prop := t_thissystem T = true -> Q c.
+  Lemma pres_invoke c : Q' c -> pres (invoke W os heap T c).
+  Proof.
+    intros Hc s Hs. unfold invoke. destruct (t_thissystem T) eqn:TS.
+    - destruct (os c (s_w s)) as [r w']. cbn [snd s_trace]. apply Forall_app. split; [exact Hs|]. constructor; [now apply Hc|constructor].
+    - cbn [snd s_trace]. exact Hs.
+  Qed.
+  Lemma pres_fail e : pres (fail W e).
+  Proof. intros s Hs. exact Hs. Qed.
+  Lemma pres_ioe c : Q' c -> pres (invoke_or_enosys W os heap present T c).
+  Proof.
+    intros Hc s Hs. unfold invoke_or_enosys. destruct (installed present T (hc_id c)).
+    - now apply pres_invoke. - exact Hs.
+  Qed.
+  Lemma pres_this P Th hp ht mk f : Q' (mk hp) -> Q' (mk ht) -> pres (this_dispatch W os heap present T P Th hp ht mk f).
+  Proof.
+    intros Hp Ht s Hs. unfold this_dispatch.
+    destruct (flag P f); [now apply pres_ioe|]. destruct (flag Th f); [now apply pres_ioe|].
+    destruct (installed present T hp); [|now apply pres_ioe].
+    pose proof (pres_invoke (mk hp) Hp s Hs) as H1.
+    destruct (invoke W os heap T (mk hp) s) as [r s1]. cbn [snd] in H1.
+    destruct ((0 <=? hr_rc r)%Z || negb (err_eqb (s_errno s1) ENOSYS)); [exact H1|].
+    now apply pres_ioe.
+  Qed.
+  Lemma pres_do_alloc len : Q' (HC H_alloc 0 None 0 0 len) -> pres (do_alloc W os heap present T len).
+  Proof.
+    intros Hc s Hs. unfold do_alloc. destruct (installed present T H_alloc).
+    - pose proof (pres_invoke _ Hc s Hs) as H1. destruct (invoke W os heap T (HC H_alloc 0 None 0 0 len) s). exact H1.
+    - destruct (heap len); exact Hs.
+  Qed.
+  Lemma pres_alloc_fallback len f : Q' (HC H_alloc 0 None 0 0 len) -> pres (alloc_fallback W os heap present T len f).
+  Proof.
+    intros Hc s Hs. unfold alloc_fallback. destruct (flag HWLOC_MEMBIND_STRICT f); [exact Hs|].
+    pose proof (pres_do_alloc len Hc s Hs) as H1. destruct (do_alloc W os heap present T len s). exact H1.
+  Qed.
+
+  (* the stateful fix functions are the pure ones plus errno *)
+  Lemma fix_cpubind_eq set s :
+    fix_cpubind W T set s = (fixc T set, match fixc T set with None => set_errno W EINVAL s | Some _ => s end).
+  Proof.
+    unfold fix_cpubind, fixc. destruct (bs_is_empty set); [reflexivity|].
+    destruct (negb (bs_subset set (t_ccpuset T))); [reflexivity|]. destruct (bs_subset (t_cpuset T) set); reflexivity.
+  Qed.
+  Lemma fix_membind_eq ns s :
+    fix_membind W T ns s = (fixm T ns, match fixm T ns with None => set_errno W EINVAL s | Some _ => s end).
+  Proof.
+    unfold fix_membind, fixm. destruct (bs_is_empty ns); [reflexivity|].
+    destruct (negb (bs_subset ns (t_cnodeset T))); [reflexivity|]. destruct (bs_subset (t_nodeset T) ns); reflexivity.
+  Qed.
+  Lemma fix_membind_cpuset_eq cs s :
+    fix_membind_cpuset W T cs s = (fixmc T cs, match fixmc T cs with None => set_errno W EINVAL s | Some _ => s end).
+  Proof.
+    unfold fix_membind_cpuset, fixmc. destruct (bs_is_empty cs); [reflexivity|].
+    destruct (negb (bs_subset cs (t_ccpuset T))); [reflexivity|]. destruct (bs_subset (t_cpuset T) cs); reflexivity.
+  Qed.
+
+  Lemma pres_with_nodeset set f (k : bset -> st W -> ares * st W) :
+    (forall ns, (bynodeset f = true /\ ns = set \/ bynodeset f = false /\ fixmc T set = Some ns) -> pres (k ns)) ->
+    pres (with_nodeset W T set f k).
+  Proof.
+    intros Hk s Hs. unfold with_nodeset. destruct (bynodeset f) eqn:B.
+    - apply Hk; auto.
+    - rewrite fix_membind_cpuset_eq. destruct (fixmc T set) eqn:E; [|exact Hs]. apply Hk; auto.
+  Qed.
+
+  Ltac inl := cbn [In both]; auto 8.
+
+  (* whatever the OS does, the trace grows only by calls listed in [calls_of] *)
+  Lemma pres_run_api a : (forall c, In c (calls_of T a) -> Q' c) -> pres (run_api W os heap present T a).
+  Proof.
+    intros HQ. destruct a; cbn [run_api]; cbn [calls_of] in HQ.
+    - (* set_cpubind *) intros s Hs. unfold set_cpubind, einval.
+      destruct (flags_ok CPUBIND_ALLFLAGS flags); cbn [negb]; [|exact Hs].
+      rewrite fix_cpubind_eq. destruct (fixc T set) as [x|]; [|exact Hs].
+      unfold ret_rc. cbn [snd]. apply pres_this; auto; apply HQ; inl.
+    - intros s Hs. unfold get_cpubind, einval. destruct (flags_ok CPUBIND_ALLFLAGS flags); cbn [negb]; [|exact Hs].
+      unfold ret_cpuset. cbn [snd]. apply pres_this; auto; apply HQ; inl.
+    - intros s Hs. unfold set_who_cpubind, einval. destruct (flags_ok CPUBIND_ALLFLAGS flags); cbn [negb]; [|exact Hs].
+      rewrite fix_cpubind_eq. destruct (fixc T set) as [x|]; [|exact Hs].
+      unfold ret_rc. cbn [snd]. apply pres_ioe; auto; apply HQ; inl.
+    - intros s Hs. unfold get_who_cpubind, einval. destruct (flags_ok CPUBIND_ALLFLAGS flags); cbn [negb]; [|exact Hs].
+      unfold ret_cpuset. cbn [snd]. apply pres_ioe; auto; apply HQ; inl.
+    - intros s Hs. unfold set_who_cpubind, einval. destruct (flags_ok CPUBIND_ALLFLAGS flags); cbn [negb]; [|exact Hs].
+      rewrite fix_cpubind_eq. destruct (fixc T set) as [x|]; [|exact Hs].
+      unfold ret_rc. cbn [snd]. apply pres_ioe; auto; apply HQ; inl.
+    - intros s Hs. unfold get_who_cpubind, einval. destruct (flags_ok CPUBIND_ALLFLAGS flags); cbn [negb]; [|exact Hs].
+      unfold ret_cpuset. cbn [snd]. apply pres_ioe; auto; apply HQ; inl.
+    - intros s Hs. unfold get_last_cpu_location, einval. destruct (flags_ok CPUBIND_ALLFLAGS flags); cbn [negb]; [|exact Hs].
+      unfold ret_cpuset. cbn [snd]. apply pres_this; auto; apply HQ; inl.
+    - intros s Hs. unfold get_who_cpubind, einval. destruct (flags_ok CPUBIND_ALLFLAGS flags); cbn [negb]; [|exact Hs].
+      unfold ret_cpuset. cbn [snd]. apply pres_ioe; auto; apply HQ; inl.
+    - (* set_membind *) unfold set_membind. apply pres_with_nodeset. intros ns Hns s Hs.
+      assert (HQ' : forall c, In c (if flags_ok MEMBIND_ALLFLAGS flags && policy_ok policy then
+                match fixm T ns with Some x => both (fun h => HC h 0 (Some x) policy flags 0) H_set_thisproc_membind H_set_thisthread_membind | None => [] end else []) -> Q' c).
+      { intros c Hc. apply HQ. unfold mem_calls. destruct Hns as [[B ->]|[B E]]; rewrite B; [|rewrite E]; exact Hc. }
+      unfold set_membind_by_nodeset, einval.
+      destruct (flags_ok MEMBIND_ALLFLAGS flags); cbn [negb orb andb] in *; [|exact Hs].
+      destruct (policy_ok policy); cbn [negb] in *; [|exact Hs].
+      rewrite fix_membind_eq. destruct (fixm T ns) as [x|]; [|exact Hs].
+      unfold ret_rc. cbn [snd]. apply pres_this; auto; apply HQ'; inl.
+    - intros s Hs. unfold get_membind, ret_early. destruct (flags_ok MEMBIND_ALLFLAGS flags); cbn [negb]; [|exact Hs].
+      unfold ret_membind. destruct (bynodeset flags); cbn [snd]; apply pres_this; auto; apply HQ; inl.
+    - (* set_proc_membind *) unfold set_proc_membind. apply pres_with_nodeset. intros ns Hns s Hs.
+      assert (HQ' : forall c, In c (if flags_ok MEMBIND_ALLFLAGS flags && policy_ok policy then
+                match fixm T ns with Some x => [HC H_set_proc_membind pid (Some x) policy flags 0] | None => [] end else []) -> Q' c).
+      { intros c Hc. apply HQ. unfold mem_calls. destruct Hns as [[B ->]|[B E]]; rewrite B; [|rewrite E]; exact Hc. }
+      unfold set_proc_membind_by_nodeset, einval.
+      destruct (flags_ok MEMBIND_ALLFLAGS flags); cbn [negb orb andb] in *; [|exact Hs].
+      destruct (policy_ok policy); cbn [negb] in *; [|exact Hs].
+      rewrite fix_membind_eq. destruct (fixm T ns) as [x|]; [|exact Hs].
+      unfold ret_rc. cbn [snd]. apply pres_ioe; auto; apply HQ'; inl.
+    - intros s Hs. unfold get_proc_membind, ret_early. destruct (flags_ok MEMBIND_ALLFLAGS flags); cbn [negb]; [|exact Hs].
+      unfold ret_membind. destruct (bynodeset flags); cbn [snd]; apply pres_ioe; auto; apply HQ; inl.
+    - (* set_area_membind *) unfold set_area_membind. apply pres_with_nodeset. intros ns Hns s Hs.
+      assert (HQ' : forall c, In c (if flags_ok MEMBIND_ALLFLAGS flags && policy_ok policy then
+                if len =? 0 then [] else
+                match fixm T ns with Some x => [HC H_set_area_membind 0 (Some x) policy flags len] | None => [] end else []) -> Q' c).
+      { intros c Hc. apply HQ. unfold mem_calls. destruct Hns as [[B ->]|[B E]]; rewrite B; [|rewrite E]; exact Hc. }
+      unfold set_area_membind_by_nodeset, einval.
+      destruct (flags_ok MEMBIND_ALLFLAGS flags); cbn [negb orb andb] in *; [|exact Hs].
+      destruct (policy_ok policy); cbn [negb] in *; [|exact Hs].
+      destruct (len =? 0); [exact Hs|].
+      rewrite fix_membind_eq. destruct (fixm T ns) as [x|]; [|exact Hs].
+      unfold ret_rc. cbn [snd]. apply pres_ioe; auto; apply HQ'; inl.
+    - intros s Hs. unfold get_area_membind, ret_early. destruct (flags_ok MEMBIND_ALLFLAGS flags); cbn [negb andb] in *; [|exact Hs].
+      destruct (len =? 0); cbn [negb] in *; [exact Hs|].
+      unfold ret_membind. destruct (bynodeset flags); cbn [snd]; apply pres_ioe; auto; apply HQ; inl.
+    - intros s Hs. unfold get_area_memlocation, ret_early. destruct (flags_ok MEMBIND_ALLFLAGS flags); cbn [negb andb] in *; [|exact Hs].
+      destruct (len =? 0); cbn [negb] in *; [exact Hs|].
+      unfold ret_membind. destruct (bynodeset flags); cbn [snd fst]; apply pres_ioe; auto; apply HQ; inl.
+    - (* alloc_membind *)
+      assert (HA : Q' (HC H_alloc 0 None 0 0 len)) by (apply HQ; left; reflexivity).
+      assert (Hby : forall ns, (bynodeset flags = true /\ ns = set \/ bynodeset flags = false /\ fixmc T set = Some ns) ->
+                    pres (alloc_membind_by_nodeset W os heap present T len ns policy flags)).
+      { intros ns Hns s Hs.
+        assert (HQ' : forall c, In c (if flags_ok MEMBIND_ALLFLAGS flags && policy_ok policy then
+                  match fixm T ns with
+                  | Some x => if flag HWLOC_MEMBIND_MIGRATE flags then [] else [HC H_alloc_membind 0 (Some x) policy flags len; HC H_set_area_membind 0 (Some x) policy flags len]
+                  | None => [] end else []) -> Q' c).
+        { intros c Hc. apply HQ. right. unfold mem_calls. destruct Hns as [[B ->]|[B E]]; rewrite B; [|rewrite E]; exact Hc. }
+        unfold alloc_membind_by_nodeset.
+        destruct (flags_ok MEMBIND_ALLFLAGS flags); cbn [negb orb andb] in *; [|exact Hs].
+        destruct (policy_ok policy); cbn [negb] in *; [|exact Hs].
+        rewrite fix_membind_eq. destruct (fixm T ns) as [x|]; [|now apply pres_alloc_fallback].
+        destruct (flag HWLOC_MEMBIND_MIGRATE flags); [now apply pres_alloc_fallback|].
+        destruct (installed present T H_alloc_membind).
+        { assert (Hc : Q' (HC H_alloc_membind 0 (Some x) policy flags len)) by (apply HQ'; inl).
+          pose proof (pres_invoke _ Hc s Hs) as H1. destruct (invoke W os heap T (HC H_alloc_membind 0 (Some x) policy flags len) s). exact H1. }
+        destruct (installed present T H_set_area_membind); [|now apply pres_alloc_fallback].
+        pose proof (pres_do_alloc len HA s Hs) as H1. destruct (do_alloc W os heap present T len s) as [p s2]. cbn [snd] in H1.
+        destruct (p =? 0)%Z; [exact H1|].
+        assert (Hc : Q' (HC H_set_area_membind 0 (Some x) policy flags len)) by (apply HQ'; inl).
+        pose proof (pres_invoke _ Hc s2 H1) as H2. destruct (invoke W os heap T (HC H_set_area_membind 0 (Some x) policy flags len) s2) as [r s3].
+        cbn [snd] in H2. destruct (negb (hr_rc r =? 0)%Z && flag HWLOC_MEMBIND_STRICT flags); exact H2. }
+      intros s Hs. unfold alloc_membind. destruct (bynodeset flags) eqn:B.
+      + apply Hby; auto.
+      + rewrite fix_membind_cpuset_eq. destruct (fixmc T set) eqn:E.
+        * apply Hby; auto.
+        * now apply pres_alloc_fallback.
+  Qed.
+End Pres.
+
+(* ---------- facts about calls_of: the three trace properties ---------- *)
+Ltac brk H := repeat match type of H with
+  | In _ (if ?b then _ else _) => let E := fresh "E" in destruct b eqn:E
+  | In _ (match ?o with Some _ => _ | None => _ end) => let E := fresh "E" in destruct o eqn:E
+  | In _ (_ :: _) => let H' := fresh "H" in destruct H as [H'|H]; [symmetry in H'|]
+  | In _ [] => destruct H
+  | In _ (both _ _ _) => unfold both in H
+  | In _ (mem_calls _ _ _ _) => unfold mem_calls in H
+  end.
+
+Lemma legal_some T h who x p f len :
+  bs_is_empty x = false -> bs_subset x (complete_of T (hid_kind h)) = true -> legal_call T (HC h who (Some x) p f len) = true.
+Proof. intros E S. unfold legal_call. cbn [hc_set hc_id]. now rewrite E, S. Qed.
+
+(* every call an entry point can construct carries a legal set, for ALL arguments *)
+Lemma calls_legal T a c : In c (calls_of T a) -> legal_call T c = true.
+Proof.
+  intros H. destruct a; cbn [calls_of] in H; brk H; subst c; try reflexivity;
+  repeat match goal with
+  | E : fixc _ _ = Some _ |- _ => apply fixc_some in E; destruct E as (?&?&?&?&?)
+  | E : fixm _ _ = Some _ |- _ => apply fixm_some in E; destruct E as (?&?&?&?&?)
+  end; apply legal_some; assumption.
+Qed.
+
+Definition bad_derived (T : topo) (a : apicall) : bool :=
+  match api_set a with
+  | Some s => api_is_mem a && negb (flag HWLOC_MEMBIND_BYNODESET (api_flags a)) && negb (bad_set T a)
+              && (bs_is_empty (derived_nodeset T s) || negb (bs_subset (derived_nodeset T s) (t_cnodeset T)))
+  | None => false
+  end.
+(* the rejected classes: unknown flag bit, bad policy, empty set, set outside the complete set,
+   and for membind by cpuset a cpuset whose NUMA nodes form an unusable nodeset *)
+Definition invalid (T : topo) (a : apicall) : bool := bad_flags a || bad_policy a || bad_set T a || bad_derived T a.
+
+Lemma calls_invalid_no_binding T a c : invalid T a = true -> In c (calls_of T a) -> is_binding_call c = false.
+Proof.
+  intros Hi H. destruct a; cbn [calls_of] in H; brk H; subst c; try reflexivity; exfalso;
+  repeat match goal with
+  | E : fixc _ _ = Some _ |- _ => apply fixc_some in E; destruct E as (?&?&?&?&?)
+  | E : fixm _ _ = Some _ |- _ => apply fixm_some in E; destruct E as (?&?&?&?&?)
+  | E : fixmc _ _ = Some _ |- _ => apply fixmc_some in E; destruct E as (?&?&?)
+  | E : _ && _ = true |- _ => apply andb_true_iff in E; destruct E
+  end;
+  revert Hi; unfold invalid, bad_derived, bad_flags, bad_policy, bad_set, api_setkind, api_allflags, bynodeset in *;
+  cbn [api_flags api_is_mem api_set api_policy andb complete_of];
+  repeat match goal with
+  | E : ?x = _ |- context [?x] => rewrite E
+  end; subst; cbn [negb orb andb complete_of];
+  repeat match goal with
+  | E : ?x = _ |- context [?x] => rewrite E
+  end; cbn [negb orb andb]; rewrite ?andb_false_r; discriminate.
+Qed.
+
+Lemma calls_full_complete T a c x :
+  covers_topology T a = true -> In c (calls_of T a) -> hc_set c = Some x -> x = complete_of T (hid_kind (hc_id c)).
+Proof.
+  intros Hc H Hx. destruct a; cbn [calls_of] in H; brk H; subst c; cbn [hc_set] in Hx; try discriminate;
+  injection Hx as <-; cbn [hc_id hid_kind complete_of];
+  repeat match goal with
+  | E : fixc _ _ = Some _ |- _ => apply fixc_some in E; destruct E as (?&?&?&?&?)
+  | E : fixm _ _ = Some _ |- _ => apply fixm_some in E; destruct E as (?&?&?&?&?)
+  | E : fixmc _ _ = Some _ |- _ => apply fixmc_some in E; destruct E as (?&?&?)
+  end;
+  revert Hc; unfold covers_topology, api_setkind, bynodeset, derived_nodeset in *; cbn [api_set api_flags api_is_mem andb];
+  repeat match goal with
+  | E : flag HWLOC_MEMBIND_BYNODESET _ = _ |- _ => rewrite E
+  end; intros Hc; subst;
+  repeat match goal with
+  | E : ?x = true |- context [if ?x then _ else _] => rewrite E
+  end; try reflexivity;
+  repeat match goal with
+  | |- context [if ?b then _ else _] => destruct b
+  end; reflexivity.
+Qed.
+
+(* ---------- results (return value, errno, untouched OS) ---------- *)
+Ltac fixfacts := repeat match goal with
+  | E : fixc _ _ = Some _ |- _ => apply fixc_some in E; destruct E as (?&?&?&?&?)
+  | E : fixm _ _ = Some _ |- _ => apply fixm_some in E; destruct E as (?&?&?&?&?)
+  | E : fixmc _ _ = Some _ |- _ => apply fixmc_some in E; destruct E as (?&?&?)
+  | E : _ && _ = true |- _ => apply andb_true_iff in E; destruct E
+  end.
+(* close a goal whose hypotheses say the arguments are fine while Hi says they are invalid *)
+Ltac contra Hi :=
+  exfalso; fixfacts; revert Hi;
+  unfold invalid, bad_derived, bad_flags, bad_policy, bad_set, api_setkind, api_allflags, bynodeset in *;
+  cbn [api_flags api_is_mem api_set api_policy andb complete_of];
+  repeat match goal with E : ?x = _ |- context [?x] => rewrite E end; subst; cbn [negb orb andb complete_of];
+  repeat match goal with E : ?x = _ |- context [?x] => rewrite E end; cbn [negb orb andb]; rewrite ?andb_false_r; discriminate.
+Ltac conds := repeat (match goal with
+  | |- context [flags_ok ?m ?f] => let E := fresh "Ef" in destruct (flags_ok m f) eqn:E
+  | |- context [policy_ok ?p] => let E := fresh "Ep" in destruct (policy_ok p) eqn:E
+  | |- context [flag HWLOC_MEMBIND_BYNODESET ?f] => let E := fresh "Eb" in destruct (flag HWLOC_MEMBIND_BYNODESET f) eqn:E
+  | |- context [fixc ?T ?s] => let E := fresh "Ec" in destruct (fixc T s) eqn:E
+  | |- context [fixmc ?T ?s] => let E := fresh "Emc" in destruct (fixmc T s) eqn:E
+  | |- context [fixm ?T ?s] => let E := fresh "Em" in destruct (fixm T s) eqn:E
+  | |- context [N.eqb ?l 0] => let E := fresh "El" in destruct (N.eqb l 0) eqn:E
+  end; cbn [negb orb andb]; cbv beta iota).
+
+Section Results.
+  Variable W : Type.
+  Variable os : hcall -> W -> hres * W.
+  Variable heap : N -> bool.
+  Variable present : hid -> bool.
+  Variable T : topo.
+  Notation RUN := (run W os heap present T).
+
+  Ltac open_api :=
+    unfold run; cbn [run_api];
+    unfold set_cpubind, get_cpubind, set_who_cpubind, get_who_cpubind, get_last_cpu_location, set_membind, get_membind,
+      set_proc_membind, get_proc_membind, set_area_membind, get_area_membind, get_area_memlocation, alloc_membind,
+      set_membind_by_nodeset, set_proc_membind_by_nodeset, set_area_membind_by_nodeset, alloc_membind_by_nodeset,
+      with_nodeset, einval, ret_early, bynodeset;
+    rewrite ?fix_cpubind_eq, ?fix_membind_cpuset_eq.
+  Ltac conds' := repeat (conds; rewrite ?fix_membind_eq).
+
+  (* the only non-allocating call that accepts an unusable set: a zero-length area returns 0
+     before the NODE set is looked at (documented: "0 on success or if len is 0"); a cpuset is
+     converted, hence checked, before that *)
+  Definition area_len0_bynodeset (a : apicall) : bool :=
+    match a with
+    | A_set_area_membind len _ _ f =>
+      (len =? 0) && negb (bad_flags a) && negb (bad_policy a) && (flag HWLOC_MEMBIND_BYNODESET f || negb (bad_set T a))
+    | _ => false
+    end.
+
+  Lemma reject_result a w :
+    invalid T a = true -> api_is_alloc a = false -> area_len0_bynodeset a = false ->
+    a_rc (fst (RUN a w)) = (-1)%Z /\ s_errno (snd (RUN a w)) = EINVAL /\ s_trace (snd (RUN a w)) = [] /\ s_w (snd (RUN a w)) = w.
+  Proof.
+    intros Hi Ha Hx. destruct a; try discriminate Ha; open_api; conds';
+    first [ solve [cbn; repeat split; reflexivity]
+          | solve [contra Hi]
+          | (* zero-length area *) exfalso; fixfacts; revert Hx;
+            unfold area_len0_bynodeset, bad_flags, bad_policy, bad_set, api_setkind, api_allflags;
+            cbn [api_flags api_is_mem api_policy api_set andb];
+            repeat match goal with E : ?x = _ |- context [?x] => rewrite E end; cbn [negb andb orb complete_of];
+            repeat match goal with E : ?x = _ |- context [?x] => rewrite E end; cbn [negb andb orb]; discriminate ].
+  Qed.
+
+  (* alloc_membind: an unknown flag bit / bad policy gives NULL/EINVAL when the set is passed BY NODESET
+     (by cpuset the set is converted first); any invalid argument with STRICT gives NULL/EINVAL *)
+  Lemma reject_result_alloc len set p f w :
+    invalid T (A_alloc_membind len set p f) = true -> flag HWLOC_MEMBIND_STRICT f = true ->
+    let a := A_alloc_membind len set p f in
+    a_rc (fst (RUN a w)) = 0%Z /\ s_errno (snd (RUN a w)) = EINVAL /\ s_trace (snd (RUN a w)) = [] /\ s_w (snd (RUN a w)) = w.
+  Proof.
+    intros Hi Hs a. subst a. open_api; conds'; unfold alloc_fallback; rewrite ?Hs;
+    first [ solve [cbn; repeat split; reflexivity] | solve [contra Hi] ].
+  Qed.
+
+  Lemma fixm_none ns : fixm T ns = None -> bs_is_empty ns || negb (bs_subset ns (t_cnodeset T)) = true.
+  Proof.
+    unfold fixm. destruct (bs_is_empty ns); [reflexivity|]. destruct (bs_subset ns (t_cnodeset T)); cbn [negb orb]; [|reflexivity].
+    destruct (bs_subset (t_nodeset T) ns); discriminate.
+  Qed.
+  Lemma fixmc_none cs : fixmc T cs = None -> bs_is_empty cs || negb (bs_subset cs (t_ccpuset T)) = true.
+  Proof.
+    unfold fixmc. destruct (bs_is_empty cs); [reflexivity|]. destruct (bs_subset cs (t_ccpuset T)); cbn [negb orb]; [|reflexivity].
+    destruct (bs_subset (t_cpuset T) cs); discriminate.
+  Qed.
+
+  (* close a goal whose hypotheses say an argument was rejected while Hv says all are valid *)
+  Ltac contra_valid Hv :=
+    exfalso;
+    repeat match goal with
+    | E : fixc _ _ = None |- _ => apply fixc_none in E
+    | E : fixm _ _ = None |- _ => apply fixm_none in E
+    | E : fixmc _ _ = None |- _ => apply fixmc_none in E
+    end; fixfacts; subst; revert Hv;
+    unfold invalid, bad_derived, bad_flags, bad_policy, bad_set, api_setkind, api_allflags, bynodeset in *;
+    cbn [api_flags api_is_mem api_set api_policy andb complete_of];
+    repeat match goal with E : ?x = _ |- context [?x] => rewrite E end; cbn [negb orb andb complete_of];
+    repeat match goal with E : ?x = _ |- context [?x] => rewrite E end; cbn [negb orb andb];
+    rewrite ?orb_true_r; discriminate.
+
+  Ltac open_rest :=
+    unfold ret_rc, ret_cpuset, ret_membind, this_dispatch, invoke_or_enosys, alloc_fallback, do_alloc, installed, bynodeset.
+
+  (* no hook, valid arguments: -1/ENOSYS, nothing reaches the OS *)
+  Lemma enosys_result a w :
+    t_thissystem T = true -> invalid T a = false -> api_is_alloc a = false ->
+    (forall h, In h (api_hooks a) -> present h = false) ->
+    match api_len a with Some l => l <> 0 | None => True end ->
+    a_rc (fst (RUN a w)) = (-1)%Z /\ s_errno (snd (RUN a w)) = ENOSYS /\ s_trace (snd (RUN a w)) = [] /\ s_w (snd (RUN a w)) = w.
+  Proof.
+    intros Hts Hv Ha Hh Hl. destruct a; try discriminate Ha; cbn [api_len] in Hl; revert Hh; cbn [api_hooks api_flags api_is_mem];
+    open_api; conds'; try solve [contra_valid Hv];
+    try (match goal with E : (_ =? 0) = true |- _ => exfalso; apply Hl; apply N.eqb_eq; exact E end);
+    open_rest; rewrite Hts; cbn [hc_id];
+    repeat match goal with |- context [flag ?b ?f] => destruct (flag b f) eqn:? end; intros Hh;
+    rewrite ?Hh by (cbn [In]; auto); cbn; repeat split; reflexivity.
+  Qed.
+
+  (* a topology that is not this system: whatever the arguments, the OS is neither called nor changed *)
+  Lemma dummy_untouched a w :
+    t_thissystem T = false -> s_trace (snd (RUN a w)) = [] /\ s_w (snd (RUN a w)) = w.
+  Proof.
+    intros Hts. destruct a; open_api; conds'; open_rest; unfold invoke; rewrite ?Hts;
+    repeat match goal with |- context [if ?b then _ else _] => destruct b end; cbn; split; reflexivity.
+  Qed.
+
+  (* ... set-calls with valid arguments return 0 *)
+  Lemma dummy_set_result a w :
+    t_thissystem T = false -> invalid T a = false -> api_is_alloc a = false -> api_set a <> None ->
+    a_rc (fst (RUN a w)) = 0%Z.
+  Proof.
+    intros Hts Hv Ha Hs. destruct a; try discriminate Ha; try (exfalso; apply Hs; reflexivity);
+    open_api; conds'; try solve [contra_valid Hv]; open_rest; unfold invoke; rewrite ?Hts;
+    repeat match goal with |- context [flag ?b ?f] => destruct (flag b f) eqn:? end;
+    repeat match goal with |- context [heap ?l] => destruct (heap l) eqn:? end; cbn; reflexivity.
+  Qed.
+
+  (* what a get-call reports on a foreign topology: the whole machine *)
+  Definition whole_machine (a : apicall) : bset :=
+    if api_is_mem a then (if flag HWLOC_MEMBIND_BYNODESET (api_flags a) then t_cnodeset T else cpuset_from_nodeset T (t_cnodeset T))
+    else t_ccpuset T.
+  Lemma dummy_get_result a w :
+    t_thissystem T = false -> bad_flags a = false -> api_set a = None ->
+    match api_len a with Some l => l <> 0 | None => True end ->
+    a_rc (fst (RUN a w)) = 0%Z /\ a_set (fst (RUN a w)) = Some (whole_machine a) /\
+    (match a with A_get_membind _ | A_get_proc_membind _ _ | A_get_area_membind _ _ => a_policy (fst (RUN a w)) = Some HWLOC_MEMBIND_MIXED | _ => True end).
+  Proof.
+    intros Hts Hv Hs Hl. destruct a; try discriminate Hs; cbn [api_len] in Hl;
+    revert Hv; unfold bad_flags, api_allflags, whole_machine; cbn [api_flags api_is_mem]; intros Hv; apply negb_false_iff in Hv;
+    open_api; rewrite Hv; cbn [negb];
+    try (destruct (N.eqb_spec len 0) as [El|El]; [exfalso; apply Hl; exact El|]);
+    open_rest; unfold invoke; rewrite ?Hts;
+    repeat match goal with |- context [flag ?b ?f] => destruct (flag b f) eqn:? end; cbn; repeat split; reflexivity.
+  Qed.
+End Results.
